@@ -13,6 +13,7 @@ EXPLANATION = ('Static rules: Z1 every pipeline builder (each provided Observabl
                'per-subscription cell is created inside actual_subscribe or an observer constructor (who-may-create check), so clones '
                'subscribed any number of times share nothing. Z5 a hand-written Clone of a pipeline type copies every field from the original (a clone that resets part of the configuration subscribes to a different pipeline). Does not decide "same output each time" (value-level; follows from Z3 only '
                'for deterministic user closures).')
+TECHNIQUE = 'static analysis: who-may-call / who-may-create rules over MIR event graphs, type-structure rules on operator types, operator-tree check of hand-written Clone impls (custom rustc_private driver)'
 ASSUMPTIONS = ['derive(Clone) of a handle-free struct is a deep copy; user closures are deterministic']
 
 # builders that work by contract
